@@ -156,6 +156,7 @@ def run(ctx):
     ctx.sample({"script": cases[-1][1], "brush": canon(res[-1][0])})
     err_trap_direct(ctx)
     own_trap_family(ctx)
+    signal_trap_family(ctx)
     ctx.cov["rule"] = ("termination paths (end, failing end, exit n, bare exit, errexit) x 12 nesting contexts x 7 handler bodies "
                        "(plain, exit n, failing under errexit, function call, subshell exit, loop) x {-c, script file, stdin}, trap set / "
                        "replaced / removed, plus seeded random control-flow programs; brush vs bash vs the trap model; ERR-trap "
@@ -228,6 +229,35 @@ def own_trap_family(ctx):
         else:
             ctx.violation("subshell with its own EXIT trap: brush differs from bash and from its model "
                           "(handler runs %d times)" % len(starts_b), case, kind="property")
+
+
+
+def signal_trap_family(ctx):
+    """`exit n` from a signal trap handler (the property's "trap handler" depth): the shell sends itself a trapped
+    signal.  brush vs bash only (signal delivery is not in the model)."""
+    cases = []
+    for sig in ("USR1", "USR2", "HUP"):
+        for hn, handler in (("marker", 'echo "S$?" >&3'), ("exit5", 'echo "S$?" >&3; exit 5'), ("exit_bare", 'echo "S$?" >&3; (exit 6); exit'),
+                            ("ignore", "")):
+            for pre in ("", "(exit 3); "):
+                for mode in ("c", "file"):
+                    script = ("exec 3>&1\ntrap 'echo \"T$?\" >&3' EXIT\ntrap %s %s\n%skill -%s $$\necho after >&3\n"
+                              % (flowgen.sq(handler), sig, pre, sig))
+                    cases.append((sig + "/" + hn, script, mode))
+    res = lib.pmap(lambda c: (lib.run_shell("brush", c[1], mode=c[2], timeout=20), lib.run_shell("bash", c[1], mode=c[2], timeout=20)), cases)
+    for (tag, script, mode), (b, o) in zip(cases, res):
+        ctx.count("sig" + script + mode, nontrivial=True, bucket="signal-trap")
+        ctx.impl_validated += 1
+        cb, co = canon(b), canon(o)
+        if cb == co:
+            continue
+        case = {"script": script, "mode": mode, "family": tag, "brush": cb, "bash": co, "brush_stderr": b["err"][-200:]}
+        if b["rc"] < 0 and not b["out"].strip() and "S" not in cb:
+            # the process is killed by the signal it trapped: nothing of the handler, nothing of the EXIT trap
+            ctx.known_or_violation("signal_trap_never_runs",
+                                   "a trapped (or ignored) signal sent to the shell itself kills it: no handler, no EXIT trap", case)
+        else:
+            ctx.violation("signal trap: brush and bash differ", case, kind="property")
 
 
 ERR_TRAPS = ["trap 'echo \"E$?\" >&3' ERR", "trap 'echo \"E$?\" >&3; (exit 4)' ERR", "trap 'echo \"E$?\" >&3' ERR; set -E",
